@@ -785,6 +785,8 @@ class Frame:
         return Agg(items, cur.kind)
 
     def operand(self, op):
+        if op and op[0] == 'v':
+            return op[1]            # a value operand of a synthesised call (function items used as callables)
         p = op_place(op)
         if p is not None:
             return self.load(p)
@@ -802,6 +804,14 @@ class Frame:
     def deref_operand(self, op):
         """Value pointed to by a reference operand (or the operand's own value when it is
         not a reference)."""
+        if op and op[0] == 'v':
+            v = op[1]
+            if isinstance(v, tuple) and len(v) == 2 and v[0] == 'byref':
+                v = v[1]
+            for _ in range(4):
+                if isinstance(v, Ref):
+                    v = Interp._ref_value(self, v)
+            return v
         p = op_place(op)
         if p is not None and not p['p']:
             tgt = self.res.ref_target(p['l'])
@@ -1680,6 +1690,10 @@ class Interp:
             path_ = fn_.get('res') or fn_.get('def')
             if path_ and self.facts.body(path_) is not None:
                 return path_, None
+            if path_:
+                # a function item without a body here (a trait method named as a callable, `map(CurveAffine::prepare)`):
+                # calling it is a call of that callee, decided by the transfer functions like any other call
+                return ('fn-item', fn_), None
             return None
         p = op_place(op)
         if p is None or p['p']:
@@ -1727,6 +1741,8 @@ class Interp:
     def _call_closure_rw(self, fr, path, captures, args, where):
         """Call a closure whose captured `&mut` state lives in frame `fr`: captured references
         are re-rooted in the callee frame and the final values written back."""
+        if isinstance(path, tuple) and path and path[0] == 'fn-item':
+            return self._call_fn_item(fr, path[1], args, where)
         cbody = self.facts.body(path)
         if cbody is None:
             raise NotDerivable('closure body not available', where)
@@ -1854,6 +1870,25 @@ class Interp:
                 return Opt(x.tag, unroot(x.payload), x.label)
             return x
         return unroot(ret)
+
+    def _call_fn_item(self, fr, fn_, args, where):
+        """A call of a function item that has no body in the crate, synthesised from a callable use: the transfer
+        functions decide it as they would decide a written call with these argument values."""
+        scratch = len(fr.body.locals) + 7
+        t = {'k': 'call', 'func': ['k', {'fn': fn_}], 'args': [['v', a] for a in args], 'dest': {'l': scratch, 'p': []},
+             'target': 0, 'unwind': None, 'span': where, 'expn': False}
+        fr.store.pop(scratch, None)
+        pth = getattr(self, '_cur_path', None) or Path()
+        handled = False
+        if self.extra_transfer is not None:
+            r = self.extra_transfer(self, fr, t, fn_, pth)
+            handled = bool(r) and r != 'panic'
+        if not handled:
+            import stdmodel
+            handled = bool(stdmodel.std_transfer(self, fr, t, fn_, pth))
+        if not handled or scratch not in fr.store:
+            raise NotDerivable('function item %s used as a callable is not modelled' % (fn_.get('res') or fn_.get('def')), where)
+        return fr.store.pop(scratch)
 
     def _call_closure(self, path, captures, arg, where):
         sub = self._sub()
